@@ -48,7 +48,7 @@ CHECKS["C01"] = NS(
         "boundary-directed float32 values (every grid point and rounding midpoint +-3 ulp, beyond-range, random bit "
         "patterns), (c) Hypothesis-drawn ranks/shapes/layouts with independent per-axis scales, (d) scales of another float "
         "dtype than the tensor (per-tensor and per-axis), (e) order: the layout cases after a history of up to four unrelated library calls, "
-        "each history in a forked child. Exploration; float32, layouts and mixed dtypes are sampled, the "
+        "each history in a forked child, (f) eight tensors of 4-5 million elements whose sizes are multiples of no block size. Exploration; float32, layouts and mixed dtypes are sampled, the "
         "16-bit square is complete in the thorough tier."
     ),
     LEVEL_NOTE="trusts torch's float64 arithmetic and dtype conversions for the reference; tolerance 2(|x/s|u+eta) for the single working-dtype division, 2 ulp for dequantization",
@@ -70,8 +70,8 @@ CHECKS["C01"] = NS(
         "idempotence asserted for fp32/fp16 only, on elements whose scale*code is finite and not subnormal (excluded elements are counted)",
     ],
     PLAN={
-        "quick": [("square", 8, {"scales_per_combo": 700}), ("fp32", 4, {"n": 400}), ("layout", 4, {"n": 800}), ("mixed", 4, {"n": 400}), ("order", 4, {"n": 150})],
-        "thorough": [("square", 16, {"scales_per_combo": None}), ("fp32", 8, {"n": 10000}), ("layout", 8, {"n": 15000}), ("mixed", 8, {"n": 8000}), ("order", 8, {"n": 6000})],
+        "quick": [("square", 8, {"scales_per_combo": 700}), ("fp32", 4, {"n": 400}), ("layout", 4, {"n": 800}), ("mixed", 4, {"n": 400}), ("order", 4, {"n": 150}), ("large", 2, {})],
+        "thorough": [("square", 16, {"scales_per_combo": None}), ("fp32", 8, {"n": 10000}), ("layout", 8, {"n": 15000}), ("mixed", 8, {"n": 8000}), ("order", 8, {"n": 6000}), ("large", 2, {})],
     },
 )
 
@@ -150,8 +150,8 @@ CHECKS["C16"] = NS(
         "exactness of 'zero weights -> bias' is asserted bitwise (projection of the bias when output activations are quantized)",
     ],
     PLAN={
-        "quick": [("weights", 8, {"n": 600}), ("layers", 4, {"n": 300}), ("calib", 4, {"n": 200})],
-        "thorough": [("weights", 8, {"n": 15000}), ("layers", 4, {"n": 8000}), ("calib", 4, {"n": 5000})],
+        "quick": [("weights", 8, {"n": 600}), ("layers", 4, {"n": 300}), ("calib", 4, {"n": 200}), ("calibgrid", 4, {})],
+        "thorough": [("weights", 8, {"n": 15000}), ("layers", 4, {"n": 8000}), ("calib", 4, {"n": 5000}), ("calibgrid", 4, {})],
     },
 )
 
